@@ -299,8 +299,8 @@ def lift(c):
 
 
 class Obligation:
-    def __init__(self, name, pc, goal, kind='ensures', line=None):
-        self.name, self.pc, self.goal, self.kind, self.line = name, list(pc), goal, kind, line
+    def __init__(self, name, pc, goal, kind='ensures', line=None, witness=None):
+        self.name, self.pc, self.goal, self.kind, self.line, self.witness = name, list(pc), goal, kind, line, witness
 
 
 class State:
@@ -404,13 +404,13 @@ class Exec:
             return new_obj(self._cur_state, v.get('cls'), **{f: self.fresh_like(cur[f], f) for f in fields})
         raise OutOfReach(f'cannot havoc a value of kind {k}')
 
-    def need(self, st, goal, name, kind='check', line=None):
+    def need(self, st, goal, name, kind='check', line=None, witness=None):
         if self.dry: return
         if '@' in name:                      # line numbers shift on harmless edits: name by ordinal instead
             base = name.split('@')[0]
             k = sum(1 for o in self.obls if o.name.startswith(base + '#'))
             name = f'{base}#{k}'
-        self.obls.append(Obligation(name, st.pc, goal, kind, line))
+        self.obls.append(Obligation(name, st.pc, goal, kind, line, witness))
 
     def pow(self, a, b):
         """a ** b with integer b: uninterpreted pow + true instances of the power laws."""
@@ -499,6 +499,10 @@ class Exec:
     def e_Subscript(self, e, st):
         o = self.ev(e.value, st)
         if isinstance(e.slice, ast.Slice):
+            hk = self.c.get('slice_hook')
+            if hk is not None:
+                r = hk(self, st, o, e.slice)
+                if r is not None: return r
             if o.kind != 'seq': raise OutOfReach('slice of non-seq')
             lo = toint(self.ev(e.slice.lower, st)) if e.slice.lower else z3.IntVal(0)
             L = z3.Length(o.t)
@@ -721,11 +725,24 @@ class Exec:
         return d
 
     def e_JoinedStr(self, e, st):
+        vals = [v if isinstance(v, ast.Constant) else self.ev(v.value, st) for v in e.values]
+        hk = self.c.get('fstring_text')
+        if hk is not None:      # the contract says which printed expressions are symbolic texts (and of which class)
+            vals = [x if isinstance(x, ast.Constant) else (hk(self, st, x, ast.unparse(v.value)) or x) for v, x in zip(e.values, vals)]
+        if any(not isinstance(x, ast.Constant) and x.kind == 'text' for x in vals):
+            # a symbolic TEXT (pyvc/template.py): literal pieces of the real source and printed expressions
+            parts = []
+            for x in vals:
+                if isinstance(x, ast.Constant): parts.append(('lit', str(x.value)))
+                elif x.kind == 'text': parts += list(x.t)
+                elif x.kind == 'str' and z3.is_string_value(x.t): parts.append(('lit', x.t.as_string()))
+                elif x.kind == 'int' and z3.is_int_value(z3.simplify(x.t)): parts.append(('lit', str(z3.simplify(x.t).as_long())))
+                else: raise OutOfReach(f'f-string mixes a symbolic text with an unknown {x.kind} (line {e.lineno})')
+            return V('text', parts)
         parts = []
-        for v in e.values:
+        for v, x in zip(e.values, vals):
             if isinstance(v, ast.Constant): parts.append(z3.StringVal(v.value))
             else:
-                x = self.ev(v.value, st)
                 if x.kind == 'str': parts.append(x.t)
                 elif x.kind == 'int': parts.append(z3.IntToStr(x.t))
                 else: parts.append(self.fresh(S, 'fmt'))
